@@ -599,6 +599,11 @@ class AlgebraProfile(FieldProfile):
                 bad = {"vec": [1.0] * rng.choice([k for k in (2, 3, 4, 5) if k != nv]), "as": rng.choice(["list", "tuple", "ndarray"])} if nv > 1 and rng.random() < 0.6 else {"bad": rng.choice(["str", "none", "dict"])}
                 return {"op": "A.reject", "a": a, "b": bad, "f": rng.choice(["add", "sub", "sub", "mul", "truediv"]), "reflected": rng.random() < 0.6, "fault": "rejected_args"}
             b = rng.choice([s for s in fields if s != a])
+            # preferably a scalar with a vector on another mesh with the SAME cell counts (shapes numpy would broadcast)
+            pref = [s for s in fields if s != a and st.h[s].box is not ha.box and tuple(st.h[s].box.v.n) == tuple(ha.box.v.n) and st.h[s].box.v.key()[:2] != ha.box.v.key()[:2]
+                    and (st.h[s].fm.nvdim == 1) != (ha.fm.nvdim == 1)]
+            if pref and rng.random() < 0.6:
+                return {"op": "A.reject", "a": a, "b": rng.choice(pref), "f": rng.choice(["add", "sub", "mul", "truediv"]), "fault": "rejected_args"}
             return {"op": "A.reject", "a": a, "b": b, "f": rng.choice(["add", "sub", "mul", "truediv", "dot", "cross", "angle", "lshift", "np.add", "np.multiply", "np.subtract"]), "fault": "rejected_args"}
         r = rng.random()
         if ha.fm.array.dtype.kind == "c" and rng.random() < 0.15:
